@@ -56,7 +56,6 @@ def cellText (t : Ty) : Stored → String
 def regionOf (t : Ty) (v : Val) : String :=
   if unsigned_underflow_wraps t v then "unsigned_underflow_wraps"
   else if bit_negative_reinterpreted t v then "bit_negative_reinterpreted"
-  else if int64_decimal_just_beyond_bound t v then "int64_decimal_just_beyond_bound"
   else if year_decimal_beyond_int64_becomes_zero t v then "year_decimal_beyond_int64_becomes_zero"
   else "-"
 
@@ -77,11 +76,15 @@ def outcomeStr (t : Ty) : Outcome → String
   | .stored v w => "stored " ++ cellText t v ++ " warn=" ++ (if w then "true" else "false")
 
 def insCase (mode : String) (t : Ty) (v : Val) : String :=
-  let o := if mode == "ignore" then insertIgnore t v else insertStrict t v
+  let ignore := mode == "ignore"
+  let o := if ignore then insertIgnore t v else insertStrict t v
   let impl := outcomeStr t o
-  let r := convert t v
-  match acceptableConvert t v r with
-  | some false => answer impl "exact-or-reported-nearest" (regionOf t v)
+  match acceptableOutcome ignore t v o with
+  | some false =>
+    let reg := regionOf t v
+    let reg := if reg == "-" && ignore && decide (ignore_stores_zero_not_nearest t v) then
+      "ignore_stores_zero_not_nearest" else reg
+    answer impl (if ignore then "nearest-with-warning-or-exact" else "exact-or-rejected") reg
   | none => answer impl "?"
   | some true => answer impl
 
